@@ -29,6 +29,7 @@ static int live;
 static long last_sec, last_nsec;
 static int have_last;
 static int nfired;
+static long keymax = 1000000;
 static int symmode;	/* 1: (sec,nsec) unknown  3: sec unknown, nsec 0 */
 
 static void handler(void *c)
@@ -68,7 +69,7 @@ static struct trec *mk(void)
 
 static void sym_key(struct trec *r)
 {
-	r->t.expires.tv_sec = sx_long("exp.sec", 0, 1000000);
+	r->t.expires.tv_sec = sx_long("exp.sec", 0, keymax);
 	r->t.expires.tv_nsec = symmode == 1 ? sx_long("exp.nsec", 0, 999999999) : 0;
 }
 
@@ -147,7 +148,7 @@ static void fire_all(void)
 {
 	int before = live;
 
-	k_now.sec = 2000000;	/* later than every key */
+	k_now.sec = 2 * keymax;	/* later than every key */
 	k_now.nsec = 0;
 	have_last = 0;
 	nfired = 0;
@@ -165,6 +166,8 @@ void sx_main(void)
 	struct trec *r;
 
 	symmode = (int)sx_opt("sym", 3);
+	if (sx_opt("farkeys", 0))
+		keymax = 1L << 40;	/* expiries tens of thousands of years apart */
 	recs = calloc(MAXN, sizeof(*recs));
 	k_env_exclude = "epoll-timerfd epoll ppoll";	/* plain poll: irrelevant to the store */
 	iv_init();
